@@ -52,16 +52,17 @@ const (
 )
 
 type verifSandbox struct {
-	s          *Server
-	initFails  bool
-	behaviours []verifRuntimeBehaviour // per invocation
-	payloads   [][]byte
-	nInvokes   int
-	resetCh    chan struct{}
-	resets     int
-	shutdowns  int
-	sendErrs   []error // result of every send attempt made by the "runtime"
-	curDone    chan *interop.InvokeFailure
+	s                *Server
+	initFails        bool
+	behaviours       []verifRuntimeBehaviour // per invocation
+	payloads         [][]byte
+	nInvokes         int
+	resetCh          chan struct{}
+	resets           int
+	shutdowns        int
+	sendErrs         []error // result of every send attempt made by the "runtime"
+	curDone          chan *interop.InvokeFailure
+	lateResetFailure bool
 }
 
 func (sb *verifSandbox) Init(i *interop.Init, timeoutMs int64) interop.InitContext {
@@ -72,7 +73,7 @@ func (sb *verifSandbox) Reset(reset *interop.Reset) (interop.ResetSuccess, *inte
 	// a reset cancels the running invoke: its Wait returns ResetReceived
 	if sb.curDone != nil {
 		select {
-		case sb.curDone <- &interop.InvokeFailure{ResetReceived: true}:
+		case sb.curDone <- &interop.InvokeFailure{ResetReceived: true, ErrorType: fatalerror.SandboxTimeout, DefaultErrorResponse: verifTimeoutErr}:
 		default:
 		}
 	}
@@ -110,6 +111,12 @@ var verifDefaultErr = &interop.ErrorInvokeResponse{
 	Headers:       interop.InvokeResponseHeaders{ContentType: "application/json"},
 	FunctionError: interop.FunctionError{Type: fatalerror.RuntimeExit},
 	Payload:       []byte(`{"errorType":"Runtime.ExitError"}`),
+}
+
+var verifTimeoutErr = &interop.ErrorInvokeResponse{
+	Headers:       interop.InvokeResponseHeaders{ContentType: "application/json"},
+	FunctionError: interop.FunctionError{Type: fatalerror.SandboxTimeout},
+	Payload:       []byte(`{"errorType":"Sandbox.Timedout"}`),
 }
 
 func (c *verifInvokeCtx) SendRequest(i *interop.Invoke, sender interop.InvokeResponseSender) {
@@ -161,6 +168,13 @@ func (c *verifInvokeCtx) SendRequest(i *interop.Invoke, sender interop.InvokeRes
 
 func (c *verifInvokeCtx) Wait() (interop.InvokeSuccess, *interop.InvokeFailure) {
 	f := <-c.done
+	if f != nil && f.ResetReceived && c.sb.lateResetFailure {
+		// the goroutine that waits for the outcome is slow: it sees the reset-flagged failure only
+		// when the next invocation has already been dispatched
+		n := c.n
+		verifWaitUntil(func() bool { return c.sb.nInvokes > n+1 })
+		verifReach("late-reset-failure")
+	}
 	if f != nil {
 		return interop.InvokeSuccess{}, f
 	}
@@ -463,5 +477,25 @@ func VerifC05SlowStateGetter() {
 	verifAssert(errB == nil, "the next invocation succeeds")
 	verifAssert(sb.nInvokes == 2, "the next invocation was dispatched to its runtime")
 	verifAssert(wb.writes == 1 && string(wb.body) == string(pb), "the next invocation returns the body posted for it, not the late completion of the previous one")
+	verifReach("done")
+}
+
+// C02: the platform error of an invocation that was cut short by its timeout reset is never
+// delivered for a LATER id: the goroutine that waits for invocation A's outcome learns about the
+// reset only when invocation B has been dispatched; B's caller must get B's response and the
+// runtime's first response for B must be accepted.
+func VerifC02LateResetFailure() {
+	pb := verifPayload("runtime payload B")
+	sb := &verifSandbox{behaviours: []verifRuntimeBehaviour{vbStall, vbRespondWhenQuiet}, payloads: [][]byte{nil, pb}, lateResetFailure: true}
+	s := newVerifServer(sb, 3000)
+	verifSettle()
+	wa := newVerifWriter()
+	errA := s.Invoke(wa, &interop.Invoke{Payload: bytes.NewReader(nil)})
+	verifAssert(errA == ErrInvokeTimeout && wa.writes == 0, "the stalled invocation ends with the timeout outcome and no body")
+	wb := newVerifWriter()
+	errB := s.Invoke(wb, &interop.Invoke{Payload: bytes.NewReader(nil)})
+	verifAssert(errB == nil, "the next invocation succeeds")
+	verifAssert(wb.writes == 1 && string(wb.body) == string(pb), "the next caller receives its own response, not the platform error of the previous invocation")
+	verifAssert(len(sb.sendErrs) == 1 && sb.sendErrs[0] == nil, "the runtime's (first) response for the next invocation is accepted")
 	verifReach("done")
 }
